@@ -68,6 +68,10 @@ class CallMixin:
         h = self.special.get(id(f))
         if h is not None and self.special_obj[id(f)] is f:
             return h(args, kwargs, node, fr)
+        if isinstance(f, types.MethodType) and isinstance(f.__func__, types.FunctionType) and (f.__func__.__module__ or '') in self.effect_modules:
+            self.path.trace.append((f'{f.__func__.__module__}.{f.__func__.__name__}',))
+            self.assumptions.add(f'{f.__func__.__module__}.* calls are effects without influence on the computed values')
+            return None
         if isinstance(f, types.MethodType) and not is_sym(f.__self__):
             # bound method of a concrete python object (e.g. 'abc'.startswith, dict.get)
             if any(is_sym(a) or contains_sym(a) for a in args):
@@ -87,10 +91,6 @@ class CallMixin:
                 return None
             if (f.__module__ or '').startswith('mesonbuild'):
                 return self.call_function(f, args, kwargs, node)
-        if isinstance(f, types.MethodType) and isinstance(f.__func__, types.FunctionType) and (f.__func__.__module__ or '') in self.effect_modules:
-            self.path.trace.append((f'{f.__func__.__module__}.{f.__func__.__name__}',))
-            self.assumptions.add(f'{f.__func__.__module__}.* calls are effects without influence on the computed values')
-            return None
         if isinstance(f, types.MethodType) and isinstance(f.__func__, types.FunctionType) and (f.__func__.__module__ or '').startswith('mesonbuild'):
             return self.call_function(f.__func__, [f.__self__] + list(args), kwargs, node)
         if not any(is_sym(a) or contains_sym(a) or isinstance(a, (PyList, PyDict, Closure)) for a in list(args) + list(kwargs.values())):
@@ -282,6 +282,10 @@ class CallMixin:
             return isinstance(v, (VBox, PyList, tuple, list)) or (z3.is_expr(v) and isinstance(v.sort(), z3.SeqSortRef) and not z3.is_string(v))
         if isinstance(S, api.Abstract):
             return isinstance(v, VAbs)
+        if isinstance(S, api.Dict):
+            return (isinstance(v, VBox) and v.kind == 'dict') or isinstance(v, (PyDict, dict))
+        if isinstance(S, api.Set):
+            return (isinstance(v, VBox) and v.kind == 'set') or isinstance(v, (set, frozenset))
         if isinstance(S, api.Enum):
             if z3.is_expr(v):
                 return v.sort() == self.zs.zsort(S)
@@ -731,6 +735,8 @@ class CallMixin:
         if isinstance(sbox, VOpt):
             sbox = sbox.val
         t = sbox.term
+        if isinstance(x, VOpt):
+            x = x.val
         xs = x if z3.is_expr(x) else self.zs.lift(x, INT if isinstance(x, int) else STR)
         if t is None:
             t = z3.K(xs.sort(), False)
